@@ -108,6 +108,8 @@ def check(chk: Check) -> None:
     jobs = fit_presets(jobs_for(chk.tier))
     results = pmap(pipejob.run, jobs)
     for res in results:
+        if res is None:
+            continue
         chk.functions.update(res["funcs"])
         judge(chk, "C01.PIPE.identity", res)
     chk.note(f"{len(jobs)} pipeline jobs")
